@@ -2,6 +2,7 @@
 # usage: tools/mut.sh <patch.diff> <ID> [<ID>...]   — apply patch to /repo, run quick checks, revert.
 # env ONLY=<job regex> restricts the jobs; TIER, VERBOSE=<n lines>.
 P="$1"; shift
+export VERIF_EVIDENCE_DIR=/tmp/verif-mut-evidence   # never clobber the committed evidence with runs on a broken tree
 cd /repo || exit 2
 if ! git diff --quiet; then echo "repo dirty"; exit 2; fi
 git apply "$P" || { echo "patch does not apply: $P"; exit 2; }
